@@ -128,14 +128,14 @@ def wrongly_resolved(t, have):
     return out
 
 
-@lemma("C11", params=[(k,) for k in range(8)], bounds="one task per outermost expression kind; type expressions of depth <= 2 (quick) / 3 (thorough) over Sum, Tuple, FunctionType (inputs and outputs), opaque types with type "
+@lemma("C11", params=[(k,) for k in range(8)], bounds="one task per outermost expression kind; type expressions of depth <= 2 over Sum, Tuple, FunctionType (inputs and outputs), opaque types with type "
                      "arguments and sequence arguments; opaque leaves name one of 3 (extension, type) pairs; registries: my.ext present or not with any "
                      "subset of its two type definitions (quick: none, both, or only T), plus (thorough) an unrelated extension or not",
        outside="deeper expressions; opaque types whose declared bound contradicts their definition (not a loadable document)",
        opts={"max_paths": 400000, "timeout_s": 3000})
 def type_resolution(kind):
     reg, have = registry()
-    t = expr("t", P(2, 3), kind)
+    t = expr("t", 2, kind)
     sym.predicate("opaque_nested_in_type_argument_of_opaque", isinstance(t, tys.Opaque) and bool(leftovers(t.args[0], have)))
     r = t.resolve(reg)
     sym.check("resolves_every_held_definition_at_every_depth", leftovers(r, have) == [])
@@ -151,13 +151,13 @@ def type_resolution(kind):
 
 @lemma("C11", params=[(w, k) for w in range(3) for k in range(8)],
        bounds="one task per operation name my.ext.Op / my.ext.Missing / other.ext.Op and outermost kind of the output type; signature output of depth <= 1, input Bool and type argument an opaque leaf "
-              "(quick) / all of depth 1 (thorough); registries as in type_resolution",
+              "(quick) / input type of depth 1 (thorough); registries as in type_resolution",
        opts={"max_paths": 400000, "timeout_s": 3000, "optional_clauses": ["op_resolution_idempotent", "resolved_op_is_the_registry_definition", "type_args_resolved"]})
 def op_resolution(which, out_kind):
     reg, have = registry(op_sig_choice=(which == 0))
     en, on = [("my.ext", "Op"), ("my.ext", "Missing"), ("other.ext", "Op")][which]
     ti, to = (tys.Bool if P(True, False) else expr("in", 1)), expr("out", 1, out_kind)
-    ta = opaque("arg", 0) if P(True, False) else expr("arg", 1)
+    ta = opaque("arg", 0)
     cu = ops.Custom(on, tys.FunctionType([ti], [to]), "free text", en, [tys.TypeTypeArg(ta), tys.BoundedNatArg(2)])
     r = cu.resolve(reg)
     held = (en, on) in have
